@@ -47,6 +47,10 @@ CHECKS = {
    text="For every shape within the bound, node labels and edge ids are solver integers in a window (pairwise distinct within their kind), inserted in several orders; 36 measures (degree/size stats, neighbour average, three clustering coefficients, components, path lengths, densities, exact assortativities, simpliciality measures, maximal/duplicate/isolate/singleton sets, Katz centrality, incidence/adjacency/Laplacian/degree/clique-motif/intersection matrices through their index maps) are compared with the same measure on the canonical labelling; every comparison, sort or list index the code makes on labels is decided by z3 for all labelings in the window at once.",
    note="Labels restricted to [-4,6] so that list[id] is reachable by exhaustive forking; set iteration follows insertion order during exploration (real hashing only in the concrete replay); floats compared with tolerance 1e-9; string labels outside.",
    technique="bounded symbolic execution (z3) with windowed symbolic labels against a canonical-label reference run"),
+ "C10": dict(level=MC, ref="5/C10",
+   text="Per shape and class with symbolic labels and attribute values: round trips through hyperedge list/dict, bipartite edge list (directed too), labelled incidence matrix, bipartite graph with index maps (directed too), two-column dataframe, the standard dict (ids rendered and cast back) and the HIF dict (three classes) preserve the incidence set, labels/order and - for the two dicts - isolated nodes, empty edges, all attributes and the class; class-to-class constructors keep nodes, attributes at all three levels and each edge's member set (union of tail and head; plus all faces for a SimplicialComplex target); from_bipartite_graph is decided for every vertex insertion order and every orientation of every add_edge call of the input graph.",
+   note="As C01; rendered ids are modelled by SymStr (decimal rendering injective); networkx/pandas/numpy see proxy labels as opaque hashables.",
+   technique="bounded symbolic execution (z3) of converter pairs with symbolic labels; bipartite-graph insertion orders enumerated"),
 }
 NOT_APPLICABLE = {
  "C11": "disk round trips: every value that reaches a file passes through json/numpy C encoders which reject or realise a symbolic proxy, so no solver variable can cross the file boundary; in-memory halves are decided under C10/C04",
